@@ -103,10 +103,11 @@ impl OutputFormat for IceDraw {
         }
 
         // font
-        if buf.get_font_dimensions() != Size::new(8, 16) {
-            return Err(SavingError::Only8x16FontsSupported.into());
-        }
         if let Some(font) = buf.get_font(*fonts.first().unwrap_or(&0)) {
+            // the font that is embedded has to be 8x16, whatever slot 0 holds
+            if font.size != Size::new(8, 16) {
+                return Err(SavingError::Only8x16FontsSupported.into());
+            }
             result.extend(font.convert_to_u8_data());
         } else {
             return Err(SavingError::NoFontFound.into());
